@@ -91,6 +91,18 @@ CHECKS = {
          'changes the grid shape.  The dumped text is run through the strict reader machine (ZincRead.tla / HJson.tla for JSON), which must return exactly Abs(g); and Abs(parse(dump(g))) = Abs(g).',
     ref='DESIGN.md 5/C08', technique='TLA+ reader machines (ZincRead, HJson) executed by TLC over hszinc output for exhaustive code-point and metacharacter-string sweeps; TLC-judged round-trip equality',
     note='XStr payload position uses a typed XStr; meta positions under 3.0; JSON part is active when lib/jsoncodec.py provides c08_job (see evidence formats)'),
+
+ 'C11': dict(
+    text='spec/FilterSem.tla: filter AST, renderer with spacing/parenthesis styles, precedence parser machine PStep (Parse(Render(ast)) = ast model-checked for all ASTs of size <=4), Sem(ast,row,grid) as the set of allowed truth values over '
+         'abstract tag valuations, limit and result-grid shape.  TLC generates every AST of size <=3 (plus and/or chains) x literal kind x operator with rows realising all valuations and the expected selection; each is run through Grid.filter '
+         '(with and without limit) and row identities, order, shape and source-unchanged are compared; seeded random larger filters are judged by TLC (Trace_FilterSem.tla).',
+    ref='DESIGN.md 5/C11', technique='TLA+ spec FilterSem (parser machine + semantics) model-checked; TLC-generated filters and expected selections replayed on Grid.filter; TLC trace judgement of random filters',
+    note='string ids for reference following; != between different kinds and tags mapped to None are not constrained; comparisons between kindred kinds (bool/number/quantity) only required not to raise'),
+ 'C12': dict(
+    text='spec/FilterGen.tla: the compile pipeline Tokenise->BuildAst->Emit->Exec->Eval with provenance-tagged source tokens; invariant PayloadOnlyInLiterals holds for the constants-table emitter and TLC must find the counterexample for the repr emitter (documented reason).  '
+         'TLC generates shape x payload-position cases; each is instantiated with canary payloads and evaluated under an audit hook; audit events, canary flags, module-global diffs, grid snapshot, generated-code skeleton equality and foreign names in co_names are logged and judged by TLC (Trace_FilterGen.tla).',
+    ref='DESIGN.md 5/C12', technique='TLA+ spec FilterGen model-checked (safe and unsafe emitter variants); TLC-generated injection cases executed under sys.addaudithook and judged by TLC',
+    note='canaries are harmless (env var / file under .work); audit events of CPython 3.12; the check is black-box through Grid.filter plus the exec audit event'),
 }
 NOT_YET = {}
 
